@@ -430,6 +430,13 @@ pub fn crash(case: &JsonValue) -> JsonValue {
         std::fs::write(dir.join(format!("rates-{}.csv.tmp", year)), st.as_bytes()).unwrap();
     }
     let live_path = dir.join(format!("rates-{}.csv", year));
+    // the live name is a symbolic link to the year's file kept elsewhere (a user who relocated the cache file)
+    let link_target = dir.with_extension("linktarget");
+    let _ = std::fs::remove_file(&link_target);
+    if case["live_symlink"].as_bool().unwrap_or(false) && live_path.exists() {
+        std::fs::rename(&live_path, &link_target).unwrap();
+        std::os::unix::fs::symlink(&link_target, &live_path).unwrap();
+    }
     let inode_of = |p: &Path| -> JsonValue {
         use std::os::unix::fs::MetadataExt;
         match std::fs::metadata(p) {
@@ -508,6 +515,7 @@ pub fn crash(case: &JsonValue) -> JsonValue {
     out["answers"] = answers;
     out["requests"] = reqs;
     let _ = std::fs::remove_dir_all(dir);
+    let _ = std::fs::remove_file(&link_target);
     out
 }
 
